@@ -377,6 +377,13 @@ impl<const H: usize> Writer<H> {
             let original_size = data.len() as u32;
             let compressed = zstd::bulk::compress(data, ZSTD_COMPRESSION_LEVEL)?;
 
+            // Incompressible data is stored as is, so a record never takes more space than its
+            // uncompressed form (callers size their writes by the uncompressed length)
+            if 4 + compressed.len() >= data.len() {
+                let total_payload_len = H + data.len();
+                return Ok((Cow::Borrowed(data), total_payload_len as u32));
+            }
+
             let mut final_data = Vec::with_capacity(4 + compressed.len());
             final_data.extend_from_slice(&original_size.to_le_bytes());
             final_data.extend_from_slice(&compressed);
